@@ -58,6 +58,11 @@ func genConfig(t *rapid.T) Config {
 	cfg.EvtPct = []int{0, 0, 5, 15}[Pick(t, "evtPct", 4)]
 	cfg.HoldPct = []int{0, 0, 10, 30}[Pick(t, "holdPct", 4)]
 	cfg.FaultBlocks = rapid.IntRange(20, 300).Draw(t, "faultBlocks")
+	cfg.Slow = -1
+	if cfg.N > 1 && Chance(t, "slow?", 30) {
+		cfg.Slow = rapid.IntRange(0, cfg.N-1).Draw(t, "slowMember")
+		cfg.SlowPct = []int{50, 80, 95}[Pick(t, "slowPct", 3)]
+	}
 	cfg.Rerun = Chance(t, "rerun?", 50)
 	cfg.Upgrade = os.Getenv("VERIF_OLDART") != "" && (Chance(t, "upgrade?", 25) || os.Getenv("VERIF_D_UPGRADE") != "")
 	cfg.Liveness = 1000
